@@ -523,6 +523,10 @@ func genRegCollector(r *emit.Rng) *collSpec {
 		s.c = lc
 		s.kind = "custom"
 	}
+	return finishSpec(s)
+}
+
+func finishSpec(s *collSpec) *collSpec {
 	s.descs = describeAll(s.c)
 	for _, d := range s.descs {
 		s.projs = append(s.projs, prometheus.VerifC13Project(d))
@@ -626,8 +630,10 @@ func safeUnregister(reg prometheus.Registerer, c prometheus.Collector) (res int)
 
 // settled waits until no goroutine beyond base is left (Register/Unregister start a Describe
 // goroutine that must have ended once the call is over and its channel drained).
-func settled(base int) bool {
-	for i := 0; i < 400; i++ {
+func settled(base int) bool { return settledFor(base, 400) }
+
+func settledFor(base, ms int) bool {
+	for i := 0; i < ms; i++ {
 		if runtime.NumGoroutine() <= base {
 			return true
 		}
@@ -1316,6 +1322,115 @@ func gatherBrokenStream(c *cli.Ctx, r *emit.Rng, n int) error {
 	return w.Flush()
 }
 
+// ---- stream reg-many ----
+// Refused wrapped registrations of collectors with many descriptors (12, 25, 100), custom collectors
+// and Registries used as collectors: a rejected operation has no effect. Afterwards no goroutine is
+// left behind (polled up to 2 s) and the wrapped object is still usable: a second Describe, and for
+// a Registry a Register and a Gather, complete under a 3 s watchdog.
+func within(ms int, f func()) bool {
+	done := make(chan bool, 1)
+	go func() { f(); done <- true }()
+	select {
+	case <-done:
+		return true
+	case <-time.After(time.Duration(ms) * time.Millisecond):
+		return false
+	}
+}
+
+func regManyStream(c *cli.Ctx, r *emit.Rng) error {
+	w := emit.NewWriter(c.Out, "C13", "reg-many")
+	time.Sleep(5 * time.Millisecond)
+	base := runtime.NumGoroutine()
+	var directFailures []map[string]interface{}
+	for rep := 0; rep < c.Scale; rep++ {
+		for _, n := range []int{12, 25, 100} {
+			for variant := 0; variant < 4; variant++ {
+				asRegistry, viaRegisterer := variant&1 == 1, variant&2 == 2
+				// which descriptors already carry the label the wrapper adds
+				bad := map[int]bool{}
+				switch r.Intn(3) {
+				case 0:
+					bad[0] = true
+				case 1:
+					bad[r.Intn(n-11)] = true
+				default:
+					for j := 0; j < n; j++ {
+						if r.Chance(1, 3) {
+							bad[j] = true
+						}
+					}
+					bad[r.Intn(n-11)] = true
+				}
+				s := &collSpec{kind: "custom-many"}
+				lc := &listCollector{}
+				sub := prometheus.NewRegistry()
+				for j := 0; j < n; j++ {
+					cl := prometheus.Labels{}
+					if bad[j] {
+						cl["z"] = "0"
+					}
+					if asRegistry {
+						sub.MustRegister(prometheus.NewCounter(prometheus.CounterOpts{Name: fmt.Sprintf("m%d", j), Help: "h", ConstLabels: cl}))
+					} else {
+						lc.descs = append(lc.descs, prometheus.NewDesc(fmt.Sprintf("m%d", j), "h", nil, cl))
+					}
+				}
+				if asRegistry {
+					s.c, s.unordered, s.kind = sub, true, "registry-many"
+				} else {
+					s.c = lc
+				}
+				finishSpec(s)
+				ls := []layer{{labels: prometheus.Labels{"z": "1"}}}
+				if r.Bool() {
+					ls = append([]layer{{isPrefix: true, prefix: "p_"}}, ls...)
+				}
+				settledFor(base, 400)
+				outer := prometheus.NewRegistry()
+				var wk int
+				if viaRegisterer {
+					wk, _ = safeRegister(wrapRegisterer(outer, ls), s.c)
+				} else {
+					wk, _ = safeRegister(outer, wrapCollector(s.c, ls))
+				}
+				what := ""
+				if !settledFor(base, 2000) {
+					what = fmt.Sprintf("%d goroutine(s) left behind", runtime.NumGoroutine()-base)
+				}
+				if !within(3000, func() { describeAll(s.c) }) {
+					what += "; a second Describe of the wrapped collector does not complete"
+				}
+				if asRegistry {
+					probeSeq++
+					p := prometheus.NewCounter(prometheus.CounterOpts{Name: fmt.Sprintf("verif_probe_%d", probeSeq), Help: "probe"})
+					if !within(3000, func() { sub.Register(p); sub.Unregister(p) }) {
+						what += "; Register on the wrapped Registry does not return"
+					} else if !within(3000, func() { sub.Gather() }) {
+						what += "; Gather on the wrapped Registry does not return"
+					}
+				}
+				if what != "" {
+					directFailures = append(directFailures, map[string]interface{}{"index": w.Len(),
+						"what": fmt.Sprintf("after a refused (kind %d) wrapped registration of a %s collector with %d descriptors: %s", wk, s.kind, n, strings.TrimPrefix(what, "; "))})
+					base = runtime.NumGoroutine()
+				}
+				pit := make([]string, len(s.projs))
+				for k, p := range s.projs {
+					pit[k] = emPdesc(p)
+				}
+				w.Add(emit.Tup("2", emit.L([]string{emit.Tup(emit.B(s.unordered), emit.L(pit))}),
+					emit.L([]string{emit.C(0, emit.I(0), emLayers(ls))}), emit.L([]string{emit.Tup(emit.I(wk), "-1", "9")})),
+					true, "reg-many:coll="+s.kind, fmt.Sprintf("reg-many:descs=%d", n), fmt.Sprintf("reg-many:register=%d", wk))
+			}
+		}
+	}
+	if len(directFailures) > 0 {
+		w.Extra["direct_failures"] = directFailures
+	}
+	return w.Flush()
+}
+
 func runC13(c *cli.Ctx) error {
 	r := emit.NewRng(c.Seed)
 	if err := descStream(c, "desc", r.Fork(), 800*c.Scale, 1, 40); err != nil {
@@ -1328,6 +1443,9 @@ func runC13(c *cli.Ctx) error {
 		return err
 	}
 	if err := regStream(c, r.Fork(), 400*c.Scale); err != nil {
+		return err
+	}
+	if err := regManyStream(c, r.Fork()); err != nil {
 		return err
 	}
 	if err := gatherStream(c, r.Fork(), 300*c.Scale); err != nil {
